@@ -516,7 +516,7 @@ func c09(r *hx.Run) {
 	r.Rule = "child process per batch. Structured entries (state hit/hit-for-pass/fresh, 0-200 header lines incl. multi-valued, empty, UTF-8, quotes, tabs and (rarely) non-UTF-8 bytes, every subset of raw/gzip/br variants, bodies 0..2 MiB, profile names, min lengths, filters, clock values 0..2^40 and negative, lifetimes up to 2^31-1): Bytes -> FromBytes must give identical re-encoded bytes and identical Get/Age/Fill (6 Accept-Encoding values) at +0,+1,+T,+T+1 s. Byte level on 200 valid records: truncation at every offset must error; bit flips, length-field edits (0, +-1, 2^31, 2^32-1..), splices, random strings, crafted filter fields: no panic, no hang (20 s), allocation <= 32x input + 1 MiB (runtime.MemStats.TotalAlloc delta). Non-trivial/distinct = distinct entry shape / mutation class."
 	r.Assume = []string{"a truncated bare HTTPResponse record is not judged (the persisted record of the statement is the entry)", "allocation is measured with 2 OS threads and includes the harness goroutine's own allocations (small constant)"}
 	exe, _ := os.Executable()
-	batches := r.Pick(1, 40)
+	batches := r.Pick(1, 8)
 	nEntries := r.Pick(1200, 2500)
 	nMut := r.Pick(12000, 60000)
 	total := &c09Result{Mutated: map[string]int{}}
